@@ -6,9 +6,10 @@
 (* `evo_config set` takes a token list: parameter names followed by values.      *)
 EXTENDS Integers, Sequences, FiniteSets, TLC
 Params == {"B", "L", "N", "S"}
-NumTokens == {"5", "-1", "2.5", "-0.5", "5.0", "1e3"}
+NumTokens == {"5", "-1", "2.5", "-0.5", "5.0", "1e3", "0", "0.0"}
 \* what a numeric token becomes: integral values are integers
 Conv(tok) == CASE tok = "5" -> [t |-> "int", v |-> "5"] [] tok = "-1" -> [t |-> "int", v |-> "-1"]
+               [] tok = "0" -> [t |-> "int", v |-> "0"] [] tok = "0.0" -> [t |-> "int", v |-> "0"]
                [] tok = "5.0" -> [t |-> "int", v |-> "5"] [] tok = "1e3" -> [t |-> "int", v |-> "1000"]
                [] tok = "2.5" -> [t |-> "float", v |-> "2.5"] [] tok = "-0.5" -> [t |-> "float", v |-> "-0.5"]
                [] OTHER -> [t |-> "str", v |-> tok]
